@@ -65,29 +65,48 @@ def run(ctx: Ctx) -> None:
         sb = c.methods.get("store_blob")
         if sb is not None:
             sers = [n for n in sb.own_nodes() if isinstance(n, ast.Call) and isinstance(n.func, ast.Attribute) and n.func.attr == "serialize_into"]
-            refs = [n for n in sb.own_nodes() if isinstance(n, ast.Call) and isinstance(n.func, ast.Attribute) and n.func.attr == "ref" and not n.args]
             if sers:
                 n1 += 1
-                fl = flow_of(prog, sb)
+                # functions that can write the metadata: store_blob and the same-class / same-module helpers it calls
+                fam = [sb]
+                for call in [x for x in sb.own_nodes() if isinstance(x, ast.Call)]:
+                    fs_, _d = prog.callees(sb, call, ctx._types)
+                    for g in fs_:
+                        if g.module is sb.module and g not in fam and (f_cls(g) is c or g.cls is None):
+                            fam.append(g)
+                refs = [(g, n) for g in fam for n in g.own_nodes() if isinstance(n, ast.Call) and isinstance(n.func, ast.Attribute) and n.func.attr == "ref" and not n.args]
                 desc = "the reference written to the metadata is ref() of the codec that serialised the blob"
                 wit = []
                 if not refs:
                     wit.append("no <codec>.ref() call feeds the metadata")
-                for r in refs:
+                fl = flow_of(prog, sb)
+                ser_defs = set()
+                for s_ in sers:
+                    sv = s_.func.value  # type: ignore
+                    if isinstance(sv, ast.Name):
+                        for d_ in fl.defs_of_use(sv):
+                            if d_.value is not None:
+                                ser_defs.add(id(d_.value))
+                for g, r in refs:
                     rv = r.func.value  # type: ignore
-                    for s in sers:
-                        sv = s.func.value  # type: ignore
-                        if not (isinstance(rv, ast.Name) and isinstance(sv, ast.Name) and rv.id == sv.id and set(fl.defs_of_use(rv)) == set(fl.defs_of_use(sv))):
-                            wit.append(f"{sb.loc(r)}: `{unparse(r)}` vs serialiser `{unparse(sv)}` at {sb.loc(s)}: not the same codec value")
-                # the ref must reach the persisted metadata (json.dumps argument)
-                dumped = any(isinstance(n, ast.Call) and (prog.dotted(sb, n.func) or "").endswith("json.dumps") and any(r in list(ast.walk(n)) for r in refs)
-                             for n in sb.own_nodes())
-                if refs and not dumped:
-                    wit.append("the ref() value does not reach json.dumps(...)")
+                    sl = ctx.slicer(follow_calls=False, follow_callers=True).slice(g, rv)
+                    reached = {id(x) for _, x in sl.nodes()}
+                    if not (ser_defs and ser_defs & reached):
+                        wit.append(f"{g.loc(r)}: `{unparse(r)}` is not taken from the codec value that serialised the blob")
+                    dumped = any(isinstance(n, ast.Call) and (prog.dotted(g, n.func) or "").endswith(("json.dumps", "json.dump")) and any(x is r for x in ast.walk(n))
+                                 for n in g.own_nodes())
+                    if not dumped:
+                        # through a local: meta = {...ref()...}; json.dumps(meta)
+                        st = prog.enclosing_stmt(g.module, r)
+                        tgt = st.targets[0].id if isinstance(st, ast.Assign) and isinstance(st.targets[0], ast.Name) else None
+                        dumped = tgt is not None and any(isinstance(n, ast.Call) and (prog.dotted(g, n.func) or "").endswith(("json.dumps", "json.dump"))
+                                                         and any(isinstance(x, ast.Name) and x.id == tgt for x in ast.walk(n)) for n in g.own_nodes())
+                    if not dumped:
+                        wit.append(f"{g.loc(r)}: the ref() value does not reach json.dumps(...)")
                 if wit:
                     rep.bad("C17.R1", sb.qname, desc, sb.loc(), wit, "ref-writer", what="the persisted codec reference is not the one of the codec that wrote the blob")
                 else:
-                    rep.ok("C17.R1", sb.qname, desc, sb.loc(refs[0]))
+                    rep.ok("C17.R1", sb.qname, desc, refs[0][0].loc(refs[0][1]))
         n2 += check_reader(ctx, c, "C17.R2")
     rep.floor("C17.R1", n1, 2)
     rep.floor("C17.R2", n2, 2)
@@ -296,49 +315,65 @@ def _handled(ctx: Ctx, c: Class) -> Set[str]:
 
 
 def _io_profile(ctx: Ctx, m: Func) -> Dict[str, list]:
+    """open modes (from the effect model: helpers inlined, mode parameters bound), encodings and read / write operations of a codec method"""
+    from ..fsmodel import StoreModel
     prog = ctx.prog
-    loc = m.positional_params()[-1] if m.positional_params() else None
     prof: Dict[str, list] = {"open": [], "encode": [], "decode": [], "ops": [], "written": [], "uses_loc": []}
-    for n in m.own_nodes():
-        if not isinstance(n, ast.Call):
-            continue
-        d = prog.dotted(m, n.func) or ""
-        if d == "open":
-            mode = "r"
-            if len(n.args) > 1 and isinstance(n.args[1], ast.Constant):
-                mode = n.args[1].value
-            for k in n.keywords:
-                if k.arg == "mode" and isinstance(k.value, ast.Constant):
-                    mode = k.value.value
-            prof["open"].append(mode)
-            if loc and any(isinstance(x, ast.Name) and x.id == loc for x in ast.walk(n.args[0])):
+    # effects with the location parameter bound to a symbol
+    sm = StoreModel.__new__(StoreModel)
+    sm.prog, sm.cls, sm.types, sm.attr_defs, sm.attr_def_exprs, sm.ctor_params = prog, m.cls, ctx._types, {}, {}, []
+    sm.join_sites = []
+    ps = m.positional_params()
+    env = {p: ("sym", "BLOB") for p in ps}
+    if ps:
+        env[ps[-1]] = ("sym", "LOC")
+    effs: list = []
+    sm._walk(m.node.body, m, env, [], effs, [], 0)
+    for e in effs:
+        if e.kind in ("WRITE_INPLACE", "READ"):
+            how = str(e.extra.get("how", ""))
+            if how.startswith("open(mode="):
+                prof["open"].append(how[len("open(mode='"):-2])
+            if e.term == ("sym", "LOC"):
                 prof["uses_loc"].append(True)
-        elif d in ("pickle.dump", "pickle.load"):
-            prof["ops"].append(d)
-        elif isinstance(n.func, ast.Attribute):
-            a = n.func.attr
-            chain = unparse(n.func, 100)
-            if a in ("encode", "decode"):
-                enc = "utf-8"
-                if n.args and isinstance(n.args[0], ast.Constant):
-                    enc = n.args[0].value
-                for k in n.keywords:
-                    if k.arg == "encoding" and isinstance(k.value, ast.Constant):
-                        enc = k.value.value
-                prof[a].append(enc)
-            elif a in ("to_parquet", "read_parquet"):
-                prof["ops"].append(a)
-                if loc and any(isinstance(x, ast.Name) and x.id == loc for x in ast.walk(n)):
+    # operations: the method and the module-level helpers it calls
+    funcs = [m]
+    for g in funcs:
+        for n in g.own_nodes():
+            if isinstance(n, ast.Call):
+                d = prog.dotted(g, n.func) or ""
+                if d in prog.funcs and prog.funcs[d].module is m.module and prog.funcs[d] not in funcs and len(funcs) < 8:
+                    funcs.append(prog.funcs[d])
+    for g in funcs:
+        for n in g.own_nodes():
+            if not isinstance(n, ast.Call):
+                continue
+            d = prog.dotted(g, n.func) or ""
+            if d in ("pickle.dump", "pickle.load"):
+                prof["ops"].append(d)
+            elif isinstance(n.func, ast.Attribute):
+                a = n.func.attr
+                chain = unparse(n.func, 100)
+                if a in ("encode", "decode"):
+                    enc = "utf-8"
+                    if n.args and isinstance(n.args[0], ast.Constant):
+                        enc = n.args[0].value
+                    for k in n.keywords:
+                        if k.arg == "encoding" and isinstance(k.value, ast.Constant):
+                            enc = k.value.value
+                    prof[a].append(enc)
+                elif a in ("to_parquet", "read_parquet"):
+                    prof["ops"].append(a)
                     prof["uses_loc"].append(True)
-            elif a == "parquet":
-                prof["ops"].append("write.parquet" if ".write." in chain else "read.parquet")
-                if loc and any(isinstance(x, ast.Name) and x.id == loc for x in ast.walk(n)):
+                elif a == "parquet":
+                    prof["ops"].append("write.parquet" if ".write." in chain else "read.parquet")
                     prof["uses_loc"].append(True)
-            elif a == "write" and n.args:
-                prof["ops"].append("write")
-                prof["written"].append(n.args[0])
-            elif a == "read":
-                prof["ops"].append("read")
+                elif a == "write" and n.args:
+                    prof["ops"].append("write")
+                    if g is m:
+                        prof["written"].append(n.args[0])
+                elif a == "read":
+                    prof["ops"].append("read")
     return prof
 
 
@@ -354,6 +389,8 @@ def _table_stores(ctx: Ctx, reg: Class, m: Func, guards: List[str], depth: int) 
                 if isinstance(a, ast.If) and any(isinstance(x, ast.Attribute) and x.attr == t for x in ast.walk(a.test)):
                     guarded = True
             out.append((t, "guarded" if guarded else "unconditional", m.loc(n)))
+        elif isinstance(n, ast.Call) and isinstance(n.func, ast.Attribute) and n.func.attr == "setdefault" and isinstance(n.func.value, ast.Attribute) and n.func.value.attr in tables:
+            out.append((n.func.value.attr, "guarded", m.loc(n)))
         elif isinstance(n, ast.Call) and isinstance(n.func, ast.Attribute) and isinstance(n.func.value, ast.Name) and n.func.value.id == "self" and depth < 3:
             g = reg.methods.get(n.func.attr)
             if g is not None and g is not m:
